@@ -85,6 +85,7 @@ func TestC11Stateful(t *testing.T) {
 		"all names but one (lapsed.com, expired from the start) are unexpired (expiry is C10)", "update's positive case is decided in C16")
 	runRapid(t, col, func(rt *rapid.T, h *ev.History) {
 		n := rapid.SampledFrom([]int{1, 1, 3, 4}).Draw(rt, "n")
+		drawValidators(rt, h, n)
 		w := newNnsWorld(n, h)
 		defer w.close()
 		r := newNnsRun(w, "C11")
